@@ -283,7 +283,7 @@ Qed.
 (** * a refused commit of a new object stays inside the staging area *)
 Lemma refused_commit_in_staging : forall c s o f p,
   hex_ok (o_hex o) = true -> (o_kind o = KCommit \/ o_kind o = KUpgrade) ->
-  o_exists o = false -> new_root_ok s (c_root c) (o_rel o) = false ->
+  o_found o = false -> new_root_ok s (c_root c) (o_rel o) = false ->
   allowed c s o f = true -> In p (targets f) -> stage_target c f p.
 Proof.
   intros c s o f p HX K NX NR A Hp. apply allowed_flat_of in A. unfold allowed_flat in A.
@@ -297,4 +297,39 @@ Proof.
   - destruct K as [K|K]; rewrite K in A; discriminate.
   - destruct K as [K|K]; rewrite K in A; discriminate.
   - destruct K as [K|K]; rewrite K in A; discriminate.
+Qed.
+
+(** * an id whose layout path is not a relative descendant of the storage root (fix 3fb070d):
+    the object is never found there, a new one is never created there, nothing is purged there -
+    every call stays in the staging area (or removes a named source of an external mv) *)
+Lemma unmapped_id_in_staging : forall c s o f p,
+  hex_ok (o_hex o) = true -> o_kind o <> KInit -> o_kind o <> KUpgradeRepo ->
+  is_relative_descendant (o_rel o) = false ->
+  allowed c s o f = true -> In p (targets f) ->
+  stage_target c f p \/ (o_kind o = KMvExt /\ existsb (fun sr => under sr p) (o_srcs o) = true).
+Proof.
+  intros c s o f p HX NI NU RD A Hp. apply allowed_flat_of in A. unfold allowed_flat in A.
+  repeat (apply orb_true_iff in A as [A|A]).
+  - left. apply andb_true_iff in A as [_ A]. eapply infra_targets; eassumption.
+  - left. apply andb_true_iff in A as [_ A]. eapply lock_targets; eassumption.
+  - left. apply andb_true_iff in A as [_ A]. eapply anc_targets; eassumption.
+  - left. apply andb_true_iff in A as [A _]. apply andb_true_iff in A as [_ A]. eapply body_targets; eassumption.
+  - destruct (o_kind o) eqn:K; try discriminate. unfold mv_sources in A.
+    destruct f as [q|q|q|a d|q|q|k q]; try discriminate; cbn in Hp.
+    + apply andb_true_iff in A as [A1 A2]. destruct Hp as [E|[E|[]]]; subst p.
+      * right. split; [reflexivity | exact A1].
+      * left. left. eapply under_trans; [apply below_under; apply (S_o_below c o HX) | apply below_under; exact A2].
+    + destruct Hp as [E|[]]; subst q. right. split; [reflexivity | exact A].
+  - exfalso. destruct (o_kind o) eqn:K; try discriminate; apply orb_true_iff in A as [A|A].
+    1,3: (unfold commit_new in A; apply andb_true_iff in A as [A _]; apply andb_true_iff in A as [_ NR];
+          unfold new_root_ok in NR; apply andb_true_iff in NR as [V _]; unfold validate_object_root in V;
+          apply andb_true_iff in V as [V _]; apply andb_true_iff in V as [V _];
+          unfold is_relative_descendant in RD; congruence).
+    all: (unfold commit_version in A; apply andb_true_iff in A as [A _]; unfold o_found in A;
+          apply andb_true_iff in A as [_ A]; congruence).
+  - exfalso. destruct (o_kind o) eqn:K; try discriminate. unfold purge_main in A. apply andb_true_iff in A as [V _].
+    unfold validate_object_root in V. apply andb_true_iff in V as [V _]. apply andb_true_iff in V as [V _].
+    unfold is_relative_descendant in RD. congruence.
+  - destruct (o_kind o) eqn:K; try discriminate. contradiction.
+  - destruct (o_kind o) eqn:K; try discriminate. contradiction.
 Qed.
